@@ -72,29 +72,37 @@ theorem matchesDestination_foreign (af : Nat) (src dest : Addr) (iu mc : Bool)
 theorem matchesDestination_none (af : Nat) (src : Addr) (iu : Bool) :
     matchesDestination af src none iu = .ok true := rfl
 
-/-- the parser accepts exactly: at least a header, whose first two 16-bit fields are the id and the flags, a
-body with every section parsed, no (unignored) trailing octets and, when asked to raise on truncation, no TC -/
+/-- the parser accepts exactly: at least a header, whose first two 16-bit fields are the id and the flags; a
+question section that can be read to its end from the octets (it is the message's question); every later record
+parsed; no (unignored) trailing octets and, when asked to raise on truncation, no TC -/
 theorem fromWire_ok_iff (w : Wire) (it rt : Bool) (m : Msg) :
     fromWire w it rt false = .ok m ↔
-      header w.octets = some (m.id, m.flags) ∧ m.ednsflags = w.body.ednsflags ∧ m.question = w.body.question ∧
+      header w.octets = some (m.id, m.flags) ∧ (questionSection w.octets m.flags).2.isSome = true ∧
+      m.question = (questionSection w.octets m.flags).1 ∧ m.ednsflags = w.body.ednsflags ∧
       w.body.broken = none ∧ (w.body.trailing = true → it = true) ∧ (tc m.flags && rt) = false := by
   unfold fromWire
   cases hh : header w.octets with
   | none => simp
   | some p =>
     obtain ⟨i, f⟩ := p
-    cases hb : w.body.broken with
-    | some fe =>
-      cases fe <;> simp <;> (try split) <;> simp
-    | none =>
-      obtain ⟨mi, mf, me, mq⟩ := m
-      cases ht : w.body.trailing <;> cases it <;> simp <;> (try split) <;> simp_all <;> grind
+    obtain ⟨mi, mf, me, mq⟩ := m
+    simp only [Option.some.injEq, Prod.mk.injEq]
+    cases hq : (questionSection w.octets f).2.isSome
+    · simp
+      split <;> simp <;> (intro h1 h2; subst h1; subst h2; simp [hq])
+    · simp only [if_true]
+      cases hb : w.body.broken with
+      | some fe =>
+        cases fe <;> simp <;> (try split) <;> simp
+      | none =>
+        cases ht : w.body.trailing <;> cases it <;> simp <;> (try split) <;> simp_all <;> grind
 
-/-- when the parser raises `Truncated`, the message it carries has the id / flags of the header octets and TC -/
+/-- when the parser raises `Truncated`, the message it carries has the id / flags of the header octets, TC set,
+and the question section as far as it could be read from the octets -/
 theorem fromWire_truncated (w : Wire) (it rt coe : Bool) (pm : Msg)
     (h : fromWire w it rt coe = .error (.truncated pm)) :
     header w.octets = some (pm.id, pm.flags) ∧ tc pm.flags = true ∧ rt = true ∧
-      pm.ednsflags = w.body.ednsflags ∧ pm.question = w.body.question := by
+      pm.question = (questionSection w.octets pm.flags).1 := by
   unfold fromWire at h
   cases hh : header w.octets with
   | none => simp [hh] at h
@@ -102,7 +110,7 @@ theorem fromWire_truncated (w : Wire) (it rt coe : Bool) (pm : Msg)
     obtain ⟨i, f⟩ := p
     simp only [hh] at h
     obtain ⟨mi, mf, me, mq⟩ := pm
-    split at h <;> (repeat' split at h) <;> simp_all
+    split at h <;> (repeat' split at h) <;> simp_all <;> grind
 
 theorem judge_accept_iff (coe : Bool) (af : Nat) (dest : Option Addr) (o : UOpts) (query : Option Msg) (src : Addr) (w : Wire) (m : Msg) :
     judge coe af dest o query src w = .accept m ↔
